@@ -37,13 +37,13 @@ PROPS = {
     },
     "C07": {
         "extra_property_files": ["C07b"],
-        "rule": "op 40: streams of 0-5 well-formed messages (all payload kinds, both storage modes), intact or truncated (anywhere / at header, length-field and body boundaries), with hostile length fields (0..3, larger than what is left, off by a little), byte flips, random and tiny streams, hostile slice-parser inputs; x read() schedules (whole reads, one byte at a time, random short reads with Interrupted, stops exactly on header/length/body boundaries, runs of 0-3 interruptions before every delivery, a single interruption at every position; thorough: every 2-way partition of short streams) x reader construction (::new with the crate's default capacities, with_capacity 65551 / 70000); a quarter with a filter. The implementation's source implements std::io::Read from (stream, schedule).",
+        "rule": "op 43: streams longer than the 10 MiB BufReader (160+ maximum-length records, a first record sweeping their alignment against the refill mark; model side through big_spec_run, theorem c07b_big_stream2); op 40: streams of 0-5 well-formed messages (all payload kinds, both storage modes), intact or truncated (anywhere / at header, length-field and body boundaries), with hostile length fields (0..3, larger than what is left, off by a little), byte flips, random and tiny streams, hostile slice-parser inputs; x read() schedules (whole reads, one byte at a time, random short reads with Interrupted, stops exactly on header/length/body boundaries, runs of 0-3 interruptions before every delivery, a single interruption at every position; thorough: every 2-way partition of short streams) x reader construction (::new with the crate's default capacities, with_capacity 65551 / 70000); a quarter with a filter. The implementation's source implements std::io::Read from (stream, schedule).",
         "assumptions": ["std::io::BufReader / Read::read_exact modelled from the standard-library source (bufreader.rs, io/mod.rs default_read_exact); what std and the OS really do is exercised by this run, not proved",
                         "DltMessageReader::with_capacity with buffer_capacity < message_max_len trips the crate's own debug_assert and is outside the claim"],
     },
     "C08": {
         "extra_property_files": ["C08b"],
-        "rule": "op 41: the same streams as C07 x poll schedules (Pending runs of length 0-3 before every Ready, Ready(k) fragments of every size incl. 1 byte) through futures::executor::block_on and an AsyncRead that wakes itself before returning Pending; the oracle compares with the blocking reader of the implementation on the same bytes (messages equal, terminal outcome of the same class).",
+        "rule": "op 43 (async): the same long streams as C07; op 41: the same streams as C07 x poll schedules (Pending runs of length 0-3 before every Ready, Ready(k) fragments of every size incl. 1 byte) through futures::executor::block_on and an AsyncRead that wakes itself before returning Pending; the oracle compares with the blocking reader of the implementation on the same bytes (messages equal, terminal outcome of the same class).",
         "assumptions": ["futures-util 0.3 BufReader::poll_read / ReadExact modelled from source; wakers, executors and cancellation are not in the model",
                         "Interrupted is not retried by futures' read_exact; the property does not quantify over it for the async reader and neither does the theorem"],
     },
